@@ -79,10 +79,4 @@ manifest = {
 with open("MANIFEST.json", "w") as f:
     json.dump(manifest, f, indent=1)
 print("MANIFEST.json: %d checks, %d not_applicable" % (len(checks), len(na)))
-try:
-    sys.path.insert(0, "/opt/veriftools/pyvenv/lib/python3.11/site-packages")
-    import jsonschema
-    jsonschema.validate(manifest, json.load(open("/root/.vp/MANIFEST.schema.json")))
-    print("schema: valid")
-except ImportError:
-    print("schema: jsonschema not importable here; run with python3-vt to validate")
+print("validate with tools/validate.sh")
